@@ -117,6 +117,29 @@ Example C02_plain_lines_example :
   | _ => False end.
 Proof. vm_compute. repeat split; repeat constructor. Qed.
 
+(* Without the premises of C02_plain_lines_partial the clause is FALSE of the faithful model - these are the witnesses of the
+   known findings F7, F27 and F29, evaluated on the model (the same texts fail on the implementation, see known_findings.json):
+   a line longer than 78 octets on which no white-space-free run is longer than 78. *)
+Fixpoint longest_run (l : bytes) (cur best : nat) : nat :=
+  match l with
+  | [] => Nat.max cur best
+  | b :: r => if is_wsp b then longest_run r 0 (Nat.max cur best) else longest_run r (S cur) best
+  end.
+Definition overlong_without_long_token (name value : bytes) : Prop :=
+  match header_value_encode name value with
+  | Ok e => existsb (fun ln => Nat.ltb 78 (length ln) && Nat.leb (longest_run ln 0 0) 78) (lines_of (name ++ bs ": " ++ e)) = true
+  | _ => False
+  end.
+(* F7: a run of blanks is never broken - 'a', eighty spaces, 'b' gives a continuation line of 81 octets *)
+Theorem C02_lines_refuted_blank_run : overlong_without_long_token (bs "Subject") ([97] ++ repeat SP 80 ++ [98]).
+Proof. vm_compute. reflexivity. Qed.
+(* F27: the first word is never moved to a line of its own - a 75-octet word after "Subject: " makes a line of 84 *)
+Theorem C02_lines_refuted_first_word : overlong_without_long_token (bs "Subject") (repeat 120%N 75).
+Proof. vm_compute. reflexivity. Qed.
+(* F29: TAB is no fold point - thirty "a<TAB>b" words after a first word stay on one line *)
+Theorem C02_lines_refuted_tab : overlong_without_long_token (bs "Subject") (bs "x " ++ concat (repeat [97; TAB; 98] 30)).
+Proof. vm_compute. reflexivity. Qed.
+
 Example C02_example_injection :
   header_value_encode (bs "Subject") [97; 13; 10; 66; 99; 99; 58; 32; 120] = Ok (bs "=?utf-8?b?YQ0KQmNjOg==?= x").
 Proof. vm_compute. reflexivity. Qed.
@@ -131,3 +154,6 @@ Print Assumptions C02_content_disposition_safe.
 Print Assumptions C02_required_fields.
 Print Assumptions C02_plain_lines_partial.
 Print Assumptions C02_plain_lines_998_partial.
+Print Assumptions C02_lines_refuted_blank_run.
+Print Assumptions C02_lines_refuted_first_word.
+Print Assumptions C02_lines_refuted_tab.
